@@ -219,6 +219,23 @@ def fam_files(ctx, rng):
             back = Mesh3D.from_obj(p)
             if [tuple(x) for x in back.vertices] != [tuple(x) for x in m.vertices] or [tuple(x) for x in back.faces] != [tuple(x) for x in m.faces]:
                 ctx.violation('files.obj:%s:roundtrip' % mode, 'OBJ round trip changed vertices or faces', desc)
+            # the writer's options: quads are split only when asked, a material file appears only when asked; vertices never change
+            tq, mtl = rng.random() < 0.5, rng.random() < 0.5
+            p2 = m.to_obj(d, 'mesh_opt', triangulate_quads=tq, include_mtl=mtl)
+            back2 = Mesh3D.from_obj(p2)
+            nq = sum(1 for fc in m.faces if len(fc) == 4)
+            exp_faces = len(m.faces) + (nq if tq else 0)
+            has_mtl = os.path.isfile(os.path.join(d, 'mesh_opt.mtl'))
+            ctx.count('files.obj.options', key=(mode, tq, mtl), sample={'mode': mode, 'triangulate_quads': tq, 'include_mtl': mtl})
+            if [tuple(x) for x in back2.vertices] != [tuple(x) for x in m.vertices]:
+                ctx.violation('files.obj:%s:options:vertices' % mode, 'OBJ written with options changed the vertices', dict(desc, triangulate_quads=tq, include_mtl=mtl))
+            elif len(back2.faces) != exp_faces or (tq and any(len(fc) != 3 for fc in back2.faces)) or \
+                    (not tq and [tuple(x) for x in back2.faces] != [tuple(x) for x in m.faces]):
+                ctx.violation('files.obj:%s:options:faces' % mode, 'to_obj(triangulate_quads=%r, include_mtl=%r): %d faces read back, %d expected' % (
+                    tq, mtl, len(back2.faces), exp_faces), dict(desc, triangulate_quads=tq, include_mtl=mtl))
+            elif has_mtl != mtl:
+                ctx.violation('files.obj:%s:options:mtl' % mode, 'to_obj(triangulate_quads=%r, include_mtl=%r): material file %s' % (
+                    tq, mtl, 'written' if has_mtl else 'missing'), dict(desc, triangulate_quads=tq, include_mtl=mtl))
         except Exception as e:
             ctx.violation('files.obj:%s:raises' % mode, '%r' % (e,), desc)
         try:
